@@ -36,6 +36,9 @@ CHECKS = {
  "C13": ("cmdsim","exploration","§5 C13","deterministic simulation over long histories with drop-counted tokens and read-only occupancy accessors",
    "Long generated histories of start/resolve/drop/abort cycles; at every quiescent point executor tasks, command tasks, registry entries by kind and live tokens must be accounted for by the reference's outstanding work, and be zero after the drain phase and after the host is dropped. Sampling, not proof.",
    "Trusted: verif accessors, the reference model's notion of outstanding work."),
+ "C18": ("capsim","exploration","§5 C18","deterministic simulation: simulated timer service with a discrete-event clock, per-timer reference state machine, fire/clear/drop/answer interleavings on direct Command, Core and Bridge",
+   "Seeded search over interleavings of first poll, fire, app clear, handle drop, request drop, clear confirmation and late/duplicate answers for several timers, both APIs; every request sent and every outcome reported is compared per step with a state machine written from the statement; ids must be unique across cores in the process. Sampling, not proof.",
+   "Trusted: the per-timer reference machine; the service answers with the matching response type; legacy API judged at its documented observation point."),
 }
 
 NOT_YET = {}
@@ -80,6 +83,7 @@ def main():
       },
       "engines":[
         {"name":"thrsim","path":"sim/src/thr","serves_properties":["C08"],"kind_free_text":"baton-passing controller over real threads at crux_core::verif schedule points; explicit preemption schedules"},
+        {"name":"capsim","path":"sim/src/cap","serves_properties":sorted([k for k,v in CHECKS.items() if v[0]=="capsim"]),"kind_free_text":"simulated peers behind the shell (timer service with discrete-event clock, key-value store, HTTP server with redirect graphs) with per-capability reference models"},
         {"name":"cmdsim","path":"sim/src/cmd","serves_properties":sorted([k for k,v in CHECKS.items() if v[0]=="cmdsim"]),"kind_free_text":"generated program AST built twice (real crux API / reference interpreter), simulated shell with fault injection, six real hosts"},
       ],
       "checks":checks,
